@@ -4,9 +4,13 @@ import (
 	"context"
 	"fmt"
 	"os"
+	"runtime"
 	"sort"
 	"strings"
+	"sync"
+	"sync/atomic"
 	"testing"
+	"time"
 
 	"github.com/fullstorydev/emulators/storage/gcsutil"
 	"pgregory.net/rapid"
@@ -141,7 +145,7 @@ func (r *lmRun) worker(script []LMAction) func(w *sched.Worker) {
 }
 
 func internalPoint(p string) bool {
-	return strings.HasPrefix(p, "lockmap.") && p != "lockmap.Lock.enter" && p != "lockmap.Unlock.enter"
+	return (strings.HasPrefix(p, "lockmap.") && p != "lockmap.Lock.enter" && p != "lockmap.Unlock.enter") || strings.HasPrefix(p, "countedLock.")
 }
 
 // runLM executes one schedule of the case.
@@ -168,7 +172,7 @@ func runLM(c *LMCase, ch sched.Chooser) (*lmRun, string) {
 				if ci >= 0 && ci < len(r.cancels) {
 					// is somebody queued on a lock with this context right now?
 					for _, ow := range r.s.Workers() {
-						if ow != w && ow.Point() == "lockmap.Lock.acquire" {
+						if ow != w && (ow.Point() == "lockmap.Lock.acquire" || ow.Point() == "countedLock.Lock.checked") {
 							r.st.cancelWhileQueued = true
 						}
 					}
@@ -389,6 +393,100 @@ func TestC19Enum(t *testing.T) {
 	if allExhausted {
 		ev.Exhaustive(0)
 	}
+}
+
+// ---------------------------------------------------------------- free-running stress (-race)
+
+type LMStress struct {
+	Workers  int   `json:"workers"`
+	Keys     int   `json:"keys"`
+	Rounds   int   `json:"rounds"`
+	CancelAt []int `json:"cancelat"` // per (worker,round) mod len: 0 = no cancel, n>0 = cancel after n Gosched calls
+}
+
+func runC19Stress(c LMStress, ev *vt.Ev) *vt.Failure {
+	vt.WriteCurrent("TestC19Stress", "C19", c)
+	defer vt.ClearCurrent("TestC19Stress")
+	lm := gcsutil.NewTransientLockMap()
+	inCS := make([]int32, c.Keys)
+	var viol atomic.Value
+	var falseReturns, cancels int64
+	var wg sync.WaitGroup
+	for w := 0; w < c.Workers; w++ {
+		w := w
+		wg.Add(1)
+		go func() {
+			defer wg.Done()
+			defer func() {
+				if r := recover(); r != nil {
+					viol.Store(fmt.Sprintf("unexpected panic in worker %d: %v", w, r))
+				}
+			}()
+			for i := 0; i < c.Rounds; i++ {
+				k := (w*7 + i*3) % c.Keys
+				key := fmt.Sprintf("k%d", k)
+				ctx, cancel := context.WithCancel(context.Background())
+				ca := 0
+				if len(c.CancelAt) > 0 {
+					ca = c.CancelAt[(w*c.Rounds+i)%len(c.CancelAt)]
+				}
+				if ca > 0 {
+					atomic.AddInt64(&cancels, 1)
+					go func() {
+						for j := 0; j < ca; j++ {
+							runtime.Gosched()
+						}
+						cancel()
+					}()
+				}
+				if lm.Lock(ctx, key) {
+					if n := atomic.AddInt32(&inCS[k], 1); n != 1 {
+						viol.Store(fmt.Sprintf("mutual exclusion broken on %s: %d holders", key, n))
+					}
+					runtime.Gosched()
+					atomic.AddInt32(&inCS[k], -1)
+					lm.Unlock(key)
+				} else {
+					atomic.AddInt64(&falseReturns, 1)
+					if ctx.Err() == nil {
+						viol.Store("Lock returned false although its context is not done")
+					}
+				}
+				cancel()
+			}
+		}()
+	}
+	done := make(chan struct{})
+	go func() { wg.Wait(); close(done) }()
+	select {
+	case <-done:
+	case <-time.After(20 * time.Second):
+		buf := make([]byte, 1<<16)
+		n := runtime.Stack(buf, true)
+		blocked := strings.Count(string(buf[:n]), "countedLock).Lock")
+		if blocked > 0 {
+			return vt.Failf("C19", "deadlock / lost wake-up: %d goroutines still inside Lock after 20s although every holder unlocks", blocked)
+		}
+		panic("HARNESS: stress run did not finish (no goroutine inside Lock)")
+	}
+	if v := viol.Load(); v != nil {
+		return vt.Failf("C19", "%s", v.(string))
+	}
+	if n := lm.VerifLen(); n != 0 {
+		return vt.Failf("C19", "lock map retains %d entries after every caller finished", n)
+	}
+	ev.Case(c, falseReturns > 0 && c.Workers > c.Keys, fmt.Sprintf("lock-returned-false:%v", falseReturns > 0))
+	return nil
+}
+
+func TestC19Stress(t *testing.T) {
+	g := rapid.Custom(func(t *rapid.T) LMStress {
+		return LMStress{Workers: rapid.IntRange(2, 8).Draw(t, "workers"), Keys: rapid.IntRange(1, 3).Draw(t, "keys"), Rounds: rapid.IntRange(5, 60).Draw(t, "rounds"),
+			CancelAt: rapid.SliceOfN(rapid.SampledFrom([]int{0, 0, 1, 2, 3, 5, 9}), 1, 12).Draw(t, "cancelat")}
+	})
+	vt.Prop[LMStress]{ID: "C19", Test: "TestC19Stress",
+		Rule: "free-running stress under the Go race detector: 2-8 goroutines x 5-60 rounds of Lock/Unlock over 1-3 keys with contexts cancelled after a drawn number of scheduler yields; monitors: at most one holder per key (atomic counter), Lock=false only with a done context, everybody finishes within 20s (otherwise a goroutine dump showing callers inside Lock = lost wake-up), no entries left; non-trivial = contention (more goroutines than keys) with at least one Lock that returned false",
+		Gen:  g, Run: runC19Stress}.Main(t)
 }
 
 var _ = sort.Strings
